@@ -61,6 +61,10 @@ func (l *LSTM) Init(n *onnx.NodeProto) error {
 			l.hiddenSize = int(attr.GetI())
 		case "input_forget":
 			l.inputForget = attr.GetI() == 1
+			// Coupling the input and forget gates is not implemented: refuse instead of ignoring it.
+			if l.inputForget {
+				return ops.ErrUnsupportedAttribute(attr.GetName(), l)
+			}
 		default:
 			return ops.ErrInvalidAttribute(attr.GetName(), l)
 		}
